@@ -48,6 +48,15 @@ structure Opts where
   useProject : Bool := Generated.optDefaults.useProjectConfig
 deriving Repr, DecidableEq, Inhabited
 
+/-- the options a running stack consults (the stack limit is spent as the depth argument of `exec`) -/
+structure Flags where
+  comments : Bool
+  flipper : Bool
+  suppress : Bool
+deriving Repr, DecidableEq, Inhabited
+
+def Opts.flags (o : Opts) : Flags := ⟨o.comments, o.flipper, o.suppress⟩
+
 /-- the file system: normalised absolute paths to text -/
 abbrev FS := List (Path × Str)
 
@@ -61,7 +70,7 @@ deriving Repr, Inhabited
 
 /-- everything a stack knows about where it is -/
 structure Ctx where
-  opts : Opts
+  opts : Flags
   fs : FS
   frames : List Frame := []     -- the stacks below this one, outermost first, as they stood when this one was created
   file : Option Path := none
@@ -132,16 +141,23 @@ def addWarn (st : St) (w : Warn) : St :=
 def Ctx.child (ctx : Ctx) (pos : Pos) (file : Option Path) : Ctx :=
   { ctx with frames := ctx.trace pos, file := file }
 
-/-- `add_stack_above`: the overflow check happens in `Stack.__init__` before anything else -/
-def withChild (child : Option ChildFn) (ctx : Ctx) (pos : Pos) (st : St) (f : ChildFn → Res) : Res :=
-  match child with
-  | none => .err { k := .stackOverflow, trace := some (ctx.trace pos), prints := some st.prints }
-  | some c => f c
+/-- the error `Stack.__init__` raises when the pile is full -/
+def overflowErr {α : Type} (ctx : Ctx) (pos : Pos) (st : St) : R α :=
+  .err { k := .stackOverflow, trace := some (ctx.trace pos), prints := some st.prints }
 
-def withChildRC {α : Type} (child : Option ChildFn) (ctx : Ctx) (pos : Pos) (st : St) (f : ChildFn → R α) : R α :=
+/-- `add_stack_above`: the overflow check happens in `Stack.__init__` before anything else the
+    command does with the new stack (binding a counter, evaluating a WHILE condition) -/
+def guardChild {α : Type} (child : Option ChildFn) (ctx : Ctx) (pos : Pos) (st : St) (k : R α) : R α :=
   match child with
-  | none => .err { k := .stackOverflow, trace := some (ctx.trace pos), prints := some st.prints }
-  | some c => f c
+  | none => overflowErr ctx pos st
+  | some _ => k
+
+/-- run `code` in the child stack created from `pos` (file `file`, starting state `cst`) -/
+def runChild (child : Option ChildFn) (ctx : Ctx) (pos : Pos) (st : St) (code : List Node)
+    (file : Option Path) (cst : St) : Res :=
+  match child with
+  | none => overflowErr ctx pos st
+  | some run => run code (ctx.child pos file) cst
 
 /-- state handed back by a finished child: warnings and prints are shared; the environment is
     copied back according to the exit mode -/
@@ -299,9 +315,77 @@ structure RC where
   sig : Option Sig := none
 deriving Repr, Inhabited
 
-/-- `run_compile` of every simple class for one (optional) argument.
+/-- what `Run.run_compile` works out before it creates the stack: the function and the state its
+    body starts in (arguments bound to the parameters in order) -/
+def runPre (ctx : Ctx) (pos : Pos) (a : Arg) (st : St) : R (Func × St) := do
+  let (fname, varStr) := breakArg a.str
+  let vals ← match varStr with
+    | none => pure []
+    | some vs =>
+      if (strip vs).isEmpty then pure [] else do
+        let v ← evalIn ctx pos st vs
+        match v with
+        | .list l => pure l
+        | v => pure [v]
+  match assocGet st.env.funcs fname with
+  | none => raise ctx pos st .varIsNonExistent
+  | some fn =>
+    if fn.params.length != vals.length then raise ctx pos st .invalidArguments
+    else if vals.any isListVal then .oom "a list bound to a parameter (aliasing is not modelled)"
+    else
+      let cst := enterSt st
+      .ok (fn, { cst with env := { cst.env with
+        user := (fn.params.zip vals).foldl (fun u pv => assocSet u pv.1 pv.2) cst.env.user } })
+
+/-- the file a function body runs in -/
+def funcFile (ctx : Ctx) (fn : Func) : Option Path :=
+  match fn.file with | some f => some f | none => ctx.file
+
+/-- what RUN does with the finished body -/
+def runPost (ctx : Ctx) (pos : Pos) (st : St) (r : Out) : R RC :=
+  let st' := leave false st r.st
+  if r.sig == .brk || r.sig == .cont then raise ctx pos st' .stackReturnType
+  else .ok { st := st', out := r.out, sig := some .normal }
+
+/-- `Run.run_compile` -/
+def runRun (child : Option ChildFn) (ctx : Ctx) (pos : Pos) (a : Arg) (st : St) : R RC :=
+  runPre ctx pos a st >>= fun p =>
+  runChild child ctx pos st p.1.code (funcFile ctx p.1) p.2 >>= runPost ctx pos st
+
+/-- the file a START-family command names, read and parsed -/
+def loadImport (ctx : Ctx) (pos : Pos) (a : Arg) (st : St) : R (Path × List Node) :=
+  match ctx.file with
+  | none => .crash "TypeError"
+  | some file =>
+    if !a.str.all pathCharOk then .oom "import path outside the modelled alphabet" else
+    match resolveImport file a.str with
+    | .error k => raise ctx pos st k
+    | .ok target =>
+      match ctx.fs.read target with
+      | none => raise ctx pos st .invalidArguments
+      | some text =>
+        if (ctx.frames.map (·.file) ++ [ctx.file]).contains (some target) then raise ctx pos st .circularStructure
+        else
+          match parseLines (splitLines text) with
+          | .error (.tab n) => .err { k := .invalidTab, lineNo := some n }
+          | .error (.quote n) => .err { k := .unclosedQuotations, lineNo := some n }
+          | .ok nodes => .ok (target, nodes)
+
+/-- what START / STARTCODE / STARTENV do with the finished file -/
+def startPost (name : Str) (st : St) (r : Out) : R RC :=
+  let cst := startBaseWarn r.st r.sig
+  let st' := leave (upper name != "STARTCODE".toList) st cst
+  if upper name == "STARTENV".toList then .ok { st := st' }
+  else .ok { st := st', out := r.out }
+
+/-- `Start.run_compile` -/
+def runStart (child : Option ChildFn) (ctx : Ctx) (pos : Pos) (name : Str) (a : Arg) (st : St) : R RC :=
+  loadImport ctx pos a st >>= fun p =>
+  runChild child ctx pos st p.2 (some p.1) (enterSt st) >>= startPost name st
+
+/-- `run_compile` of every simple class that creates no stack, for one (optional) argument.
     `pos.line2` is already set by `__multi_comp`. -/
-def runCompile (child : Option ChildFn) (ctx : Ctx) (c : ClsDesc) (name : Str) (line : Nat)
+def runCompileLocal (ctx : Ctx) (c : ClsDesc) (name : Str) (line : Nat)
     (a : Option Arg) (st : St) : R RC :=
   let pos : Pos := ⟨line, some (match a with | some a => a.orig | none => line)⟩
   let dflt : R RC := do let ls ← defaultEmit name a; .ok { st := st, out := ls, sig := some .normal }
@@ -356,59 +440,23 @@ def runCompile (child : Option ChildFn) (ctx : Ctx) (c : ClsDesc) (name : Str) (
         else if isListVal v then .oom "a list stored in a variable (aliasing is not modelled)"
         else .ok { st := { st with env := { st.env with user := assocSet st.env.user nm v } } }
       | _ => .crash "ValueError"
-  | "Run" =>
+  | _ => dflt
+
+/-- the position `__multi_comp` sets before calling `run_compile` -/
+def argPos (line : Nat) (a : Option Arg) : Pos := ⟨line, some (match a with | some a => a.orig | none => line)⟩
+
+/-- `run_compile` of every simple class for one (optional) argument -/
+def runCompile (child : Option ChildFn) (ctx : Ctx) (c : ClsDesc) (name : Str) (line : Nat)
+    (a : Option Arg) (st : St) : R RC :=
+  if hasHook c "run_compile" && c.cname == "Run" then
     match a with
     | none => .crash "AttributeError"
-    | some a => do
-      let (fname, varStr) := breakArg a.str
-      let vals ← match varStr with
-        | none => pure []
-        | some vs =>
-          if (strip vs).isEmpty then pure [] else do
-            let v ← evalIn ctx pos st vs
-            match v with
-            | .list l => pure l
-            | v => pure [v]
-      match assocGet st.env.funcs fname with
-      | none => raise ctx pos st .varIsNonExistent
-      | some fn =>
-        if fn.params.length != vals.length then raise ctx pos st .invalidArguments
-        else if vals.any isListVal then .oom "a list bound to a parameter (aliasing is not modelled)"
-        else
-          withChildRC child ctx pos st fun run => do
-            let file := match fn.file with | some f => some f | none => ctx.file
-            let cst := enterSt st
-            let cst := { cst with env := { cst.env with
-              user := (fn.params.zip vals).foldl (fun u pv => assocSet u pv.1 pv.2) cst.env.user } }
-            let r ← run fn.code (ctx.child pos file) cst
-            let st' := leave false st r.st
-            if r.sig == .brk || r.sig == .cont then raise ctx pos st' .stackReturnType
-            else .ok { st := st', out := r.out, sig := some .normal }
-  | "Start" =>
-    match a, ctx.file with
-    | some a, some file =>
-      if !a.str.all pathCharOk then .oom "import path outside the modelled alphabet" else
-      match resolveImport file a.str with
-      | .error k => raise ctx pos st k
-      | .ok target =>
-        match ctx.fs.read target with
-        | none => raise ctx pos st .invalidArguments
-        | some text =>
-          if (ctx.frames.map (·.file) ++ [ctx.file]).contains (some target) then raise ctx pos st .circularStructure
-          else
-            match parseLines (splitLines text) with
-            | .error (.tab n) => .err { k := .invalidTab, lineNo := some n }
-            | .error (.quote n) => .err { k := .unclosedQuotations, lineNo := some n }
-            | .ok nodes =>
-              let parallel := upper name != "STARTCODE".toList
-              withChildRC child ctx pos st fun run => do
-                let r ← run nodes (ctx.child pos (some target)) (enterSt st)
-                let cst := startBaseWarn r.st r.sig
-                let st' := leave parallel st cst
-                if upper name == "STARTENV".toList then .ok { st := st' }
-                else .ok { st := st', out := r.out }
-    | _, _ => .crash "TypeError"
-  | _ => dflt
+    | some a => runRun child ctx (argPos line (some a)) a st
+  else if hasHook c "run_compile" && c.cname == "Start" then
+    match a with
+    | none => .crash "TypeError"
+    | some a => runStart child ctx (argPos line (some a)) name a st
+  else runCompileLocal ctx c name line a st
 
 /-- `__multi_comp`: run `run_compile` for every argument (or once with none), accumulating -/
 def multiComp (child : Option ChildFn) (ctx : Ctx) (c : ClsDesc) (name : Str) (line : Nat) :
@@ -419,9 +467,21 @@ def multiComp (child : Option ChildFn) (ctx : Ctx) (c : ClsDesc) (name : Str) (l
     let sig' := r.sig.getD sig
     multiComp child ctx c name line rest r.st (out ++ r.out) sig'
 
-/-- `SimpleCommand.compile` -/
-def compileSimple (child : Option ChildFn) (ctx : Ctx) (c : ClsDesc) (word : Str) (line : Nat)
-    (arg : Option Str) (block : Option (List Node)) (st : St) : Res :=
+/-- the `verify_args` hooks, keyed by class name -/
+def verifyArgsHook (ctx : Ctx) (pos0 : Pos) (c : ClsDesc) (args : List Arg) (st : St) : R St :=
+  if hasHook c "verify_args" then
+    match c.cname with
+    | "DefaultDelay" =>
+      if args.length > 1 then .ok (addWarn st ⟨.defaultDelayMulti, some (ctx.trace pos0)⟩) else .ok st
+    | "Return" => if args.length > 1 then raise ctx pos0 st .invalidArguments else .ok st
+    | _ => .ok st
+  else .ok st
+
+/-- everything `SimpleCommand.compile` does before `__multi_comp`: flipper check, `$` prefix,
+    listify, strip, evaluate, the argument-count, type and hook checks, `format_arg`.
+    Yields the command name without `$`, the items to run and the state (warnings may be added). -/
+def simplePre (ctx : Ctx) (c : ClsDesc) (word : Str) (line : Nat)
+    (arg : Option Str) (block : Option (List Node)) (st : St) : R (Str × List (Option Arg) × St) :=
   let pos0 : Pos := ⟨line, none⟩
   if c.flipperOnly && !ctx.opts.flipper then raise ctx pos0 st .invalidCommand else
   if c.cname == "Start" && ctx.file.isNone then raise ctx pos0 st .notAValidCommand else
@@ -440,18 +500,17 @@ def compileSimple (child : Option ChildFn) (ctx : Ctx) (c : ClsDesc) (word : Str
     else if args.isEmpty && c.argReq == .required then raise ctx pos0 st .invalidArguments
     else do
       verifyTypes ctx line st c.argType args
-      -- the `verify_args` hooks
-      let st ← if hasHook c "verify_args" then
-          match c.cname with
-          | "DefaultDelay" =>
-            if args.length > 1 then pure (addWarn st ⟨.defaultDelayMulti, some (ctx.trace pos0)⟩) else pure st
-          | "Return" => if args.length > 1 then raise ctx pos0 st .invalidArguments else pure st
-          | _ => pure st
-        else pure st
+      let st ← verifyArgsHook ctx pos0 c args st
       verifyEach ctx line st c args
       let args := args.map (formatArg c)
       let items : List (Option Arg) := if args.isEmpty then [none] else args.map some
-      multiComp child ctx c name line items st [] .normal
+      .ok (name, items, st)
+
+/-- `SimpleCommand.compile` -/
+def compileSimple (child : Option ChildFn) (ctx : Ctx) (c : ClsDesc) (word : Str) (line : Nat)
+    (arg : Option Str) (block : Option (List Node)) (st : St) : Res :=
+  simplePre ctx c word line arg block st >>= fun p =>
+  multiComp child ctx c p.1 line p.2.1 p.2.2 [] .normal
 
 /-! ### block commands -/
 
@@ -483,54 +542,91 @@ def shouldBreak : Sig → Option Sig
   | .normal => none
   | .ret => some .ret
 
+/-- bind a loop counter in the child environment (`new_var`) -/
+def bindCounter (ctx : Ctx) (pos : Pos) (st : St) (var : Option Str) (count : Nat) (cst : St) : R St :=
+  match var with
+  | none => .ok cst
+  | some v =>
+    if !isVar v false then raise ctx pos st .unacceptableVarName
+    else .ok { cst with env := { cst.env with user := assocSet cst.env.user v (.int count) } }
+
+/-- what a finished iteration means for the loop: go on (`none`) or stop with a result -/
+def afterIter (st : St) (out : List Str) (r : Out) : St × List Str × Option Sig :=
+  (leave false st r.st, out ++ r.out, shouldBreak r.sig)
+
 /-- the `while count < self.tokenize_count(argument)` loop; `budget` bounds the iterations that
     can still happen (`count < n ≤ repeatLimit`) -/
 def repeatLoop (child : Option ChildFn) (ctx : Ctx) (pos : Pos) (var : Option Str) (countExpr : Str)
     (body : List Node) : Nat → Nat → St → List Str → Res
   | 0, _, st, out => .ok { st := st, out := out }       -- unreachable: count < n ≤ limit
-  | budget + 1, count, st, out => do
-    let n ← tokenizeCount ctx pos st countExpr
+  | budget + 1, count, st, out =>
+    tokenizeCount ctx pos st countExpr >>= fun n =>
     if !(count < n) then .ok { st := st, out := out, sig := .normal }
     else
-      withChild child ctx pos st fun run => do
-        let cst := enterSt st
-        let cst ← match var with
-          | none => pure cst
-          | some v =>
-            if !isVar v false then raise ctx pos st .unacceptableVarName
-            else pure { cst with env := { cst.env with user := assocSet cst.env.user v (.int count) } }
-        let r ← run body (ctx.child pos ctx.file) cst
-        let st' := leave false st r.st
-        match shouldBreak r.sig with
-        | some s => .ok { st := st', out := out ++ r.out, sig := s }
-        | none => repeatLoop child ctx pos var countExpr body budget (count + 1) st' (out ++ r.out)
+      guardChild child ctx pos st <|
+      bindCounter ctx pos st var count (enterSt st) >>= fun cst =>
+      runChild child ctx pos st body ctx.file cst >>= fun r =>
+      match afterIter st out r with
+      | (st', out', some s) => .ok { st := st', out := out', sig := s }
+      | (st', out', none) => repeatLoop child ctx pos var countExpr body budget (count + 1) st' out'
 
 /-- the `while True` loop of WHILE; `budget` = iterations that may still start -/
 def whileLoop (child : Option ChildFn) (ctx : Ctx) (pos : Pos) (var : Option Str) (cond : Str)
     (body : List Node) : Nat → Nat → St → List Str → Res
   | 0, _, st, _ => raise ctx pos st .exceededLimit
   | budget + 1, count, st, out =>
-    withChild child ctx pos st fun run => do
-      let cst := enterSt st
-      let cst ← match var with
-        | none => pure cst
-        | some v =>
-          if !isVar v false then raise ctx pos st .unacceptableVarName
-          else pure { cst with env := { cst.env with user := assocSet cst.env.user v (.int count) } }
-      let cv ← evalIn ctx pos cst cond
-      if !cv.truthy then .ok { st := leave false st cst, out := out, sig := .normal }
-      else do
-        let r ← run body (ctx.child pos ctx.file) cst
-        let st' := leave false st r.st
-        match shouldBreak r.sig with
-        | some s => .ok { st := st', out := out ++ r.out, sig := s }
-        | none => whileLoop child ctx pos var cond body budget (count + 1) st' (out ++ r.out)
+    guardChild child ctx pos st <|
+    bindCounter ctx pos st var count (enterSt st) >>= fun cst =>
+    evalIn ctx pos cst cond >>= fun cv =>
+    if !cv.truthy then .ok { st := leave false st cst, out := out, sig := .normal }
+    else
+      runChild child ctx pos st body ctx.file cst >>= fun r =>
+      match afterIter st out r with
+      | (st', out', some s) => .ok { st := st', out := out', sig := s }
+      | (st', out', none) => whileLoop child ctx pos var cond body budget (count + 1) st' out'
 
 def ifSuccess : Str := Generated.ifSuccess.toList
 
-/-- `BlockCommand.compile` + `run_compile` of the block classes -/
-def compileBlock (child : Option ChildFn) (ctx : Ctx) (c : ClsDesc) (word : Str) (line : Nat)
-    (arg : Option Str) (block : List Node) (hasBlock : Bool) (st : St) : Res :=
+/-- what a block command decides before it creates any stack -/
+inductive BlockAct
+  | done (o : Out)                                             -- nothing (more) to run
+  | body (st : St)                                             -- IF/ELIF/ELSE: run the block once from `st`
+  | repeat (var : Option Str) (count : Str) (st : St)          -- REPEAT/FOR with a block
+  | while (var : Option Str) (cond : Str) (st : St)            -- WHILE
+
+def rawLines : List Node → Option (List Str)
+  | [] => some []
+  | .line l :: rest => (rawLines rest).map (l.content :: ·)
+  | .block _ :: _ => none
+
+def setIfFlag (st : St) (b : Bool) : St :=
+  { st with env := { st.env with temp := assocSet st.env.temp ifSuccess (.bool b) } }
+
+def ifFlag (st : St) : Bool :=
+  match assocGet st.env.temp ifSuccess with | some v => v.truthy | none => false
+
+/-- `If.run_compile` up to the decision whether the body runs -/
+def ifPre (ctx : Ctx) (pos : Pos) (word : Str) (arg : Option Str) (st : St) : R BlockAct :=
+  let name := upper word
+  let st := if assocHas st.env.temp ifSuccess then st else setIfFlag st false      -- mk_temp_var
+  if arg.isNone && name != "ELSE".toList then raise ctx pos st .invalidArguments
+  else if arg.isSome && name == "ELSE".toList then raise ctx pos st .invalidArguments
+  else do
+    let cond ← if name != "ELSE".toList then do
+        let v ← evalIn ctx pos st (arg.getD [])
+        pure v.truthy
+      else pure true
+    let flag := ifFlag st
+    let st := if name == "IF".toList then setIfFlag st false else st
+    let skip := if name == "IF".toList then false else flag
+    if skip then .ok (.done { st := st })
+    else if !cond then .ok (.done { st := st })
+    else .ok (.body (setIfFlag st true))
+
+/-- `BlockCommand.compile` and the part of `run_compile` of each block class that runs in the
+    current stack -/
+def blockPre (ctx : Ctx) (c : ClsDesc) (word : Str) (line : Nat)
+    (arg : Option Str) (block : List Node) (hasBlock : Bool) (st : St) : R BlockAct :=
   let pos : Pos := ⟨line, none⟩
   if c.flipperOnly && !ctx.opts.flipper then raise ctx pos st .invalidCommand else
   let argPresent := match arg with | some a => !a.isEmpty | none => false
@@ -539,28 +635,7 @@ def compileBlock (child : Option ChildFn) (ctx : Ctx) (c : ClsDesc) (word : Str)
   else
     let arg := if c.strip then arg.map strip else arg
     match c.cname with
-    | "If" =>
-      let name := upper word
-      let st := if assocHas st.env.temp ifSuccess then st
-                else { st with env := { st.env with temp := assocSet st.env.temp ifSuccess (.bool false) } }
-      if arg.isNone && name != "ELSE".toList then raise ctx pos st .invalidArguments
-      else if arg.isSome && name == "ELSE".toList then raise ctx pos st .invalidArguments
-      else do
-        let cond ← if name != "ELSE".toList then do
-            let v ← evalIn ctx pos st (arg.getD [])
-            pure v.truthy
-          else pure true
-        let flag := match assocGet st.env.temp ifSuccess with | some v => v.truthy | none => false
-        let setFlag := fun (st : St) (b : Bool) =>
-          { st with env := { st.env with temp := assocSet st.env.temp ifSuccess (.bool b) } }
-        let (st, skip) := if name == "IF".toList then (setFlag st false, false) else (st, flag)
-        if skip then .ok { st := st }
-        else if !cond then .ok { st := st }
-        else
-          let st := setFlag st true
-          withChild child ctx pos st fun run => do
-            let r ← run block (ctx.child pos ctx.file) (enterSt st)
-            .ok { st := leave false st r.st, out := r.out, sig := r.sig }
+    | "If" => ifPre ctx pos word arg st
     | "Func" =>
       let (fname, varStr) := breakArg (arg.getD [])
       let params : List Str := match varStr with
@@ -568,29 +643,39 @@ def compileBlock (child : Option ChildFn) (ctx : Ctx) (c : ClsDesc) (word : Str)
         | some vs => if vs.isEmpty then [] else (splitChar ',' vs).map strip
       if !isVar fname false then raise ctx pos st .unacceptableVarName
       else if !params.all (fun p => isVar p false) then raise ctx pos st .unacceptableVarName
-      else .ok { st := { st with env := { st.env with funcs := assocSet st.env.funcs fname ⟨params, block, ctx.file⟩ } } }
+      else .ok (.done { st := { st with env := { st.env with funcs := assocSet st.env.funcs fname ⟨params, block, ctx.file⟩ } } })
     | "Ignore" =>
-      let rec raw : List Node → Option (List Str)
-        | [] => some []
-        | .line l :: rest => (raw rest).map (l.content :: ·)
-        | .block _ :: _ => none
-      match raw block with
+      match rawLines block with
       | none => raise ctx pos st .general
-      | some ls => .ok { st := st, out := ls }
+      | some ls => .ok (.done { st := st, out := ls })
     | "Repeat" =>
       let (var, countExpr) := parseLoopArg (arg.getD [])
       if !hasBlock then
         if var.isSome then raise ctx pos st .invalidArguments
-        else .ok { st := st, out := ["REPEAT ".toList ++ countExpr] }
+        else .ok (.done { st := st, out := ["REPEAT ".toList ++ countExpr] })
       else
         match var with
         | some v => if !isVar v false then raise ctx pos st .unacceptableVarName
-                    else repeatLoop child ctx pos var countExpr block (repeatLimit + 1) 0 st []
-        | none => repeatLoop child ctx pos var countExpr block (repeatLimit + 1) 0 st []
+                    else .ok (.repeat var countExpr st)
+        | none => .ok (.repeat var countExpr st)
     | "While" =>
       let (var, cond) := parseLoopArg (arg.getD [])
-      whileLoop child ctx pos var cond block (whileLimit + 1) 0 st []
+      .ok (.while var cond st)
     | _ => .oom ("block command class not modelled: " ++ c.cname)
+
+/-- the part of a block command that creates stacks -/
+def runBlockAct (child : Option ChildFn) (ctx : Ctx) (pos : Pos) (block : List Node) : BlockAct → Res
+  | .done o => .ok o
+  | .body st =>
+    runChild child ctx pos st block ctx.file (enterSt st) >>= fun r =>
+    .ok { st := leave false st r.st, out := r.out, sig := r.sig }
+  | .repeat var countExpr st => repeatLoop child ctx pos var countExpr block (repeatLimit + 1) 0 st []
+  | .while var cond st => whileLoop child ctx pos var cond block (whileLimit + 1) 0 st []
+
+/-- a block command -/
+def compileBlock (child : Option ChildFn) (ctx : Ctx) (c : ClsDesc) (word : Str) (line : Nat)
+    (arg : Option Str) (block : List Node) (hasBlock : Bool) (st : St) : Res :=
+  blockPre ctx c word line arg block hasBlock st >>= runBlockAct child ctx ⟨line, none⟩ block
 
 /-! ### dispatch and the statement loop -/
 
@@ -623,19 +708,19 @@ def stepCmd (child : Option ChildFn) (ctx : Ctx) (l : PreLine) (block : Option (
                 else addWarn st ⟨.notExist l.num, some (ctx.trace ⟨l.num, none⟩)⟩
       compileSimple child ctx Generated.generic word l.num arg block st
 
+/-- the code block of a command: the list element that follows its line, if that is a list -/
+def nextBlock : List Node → Option (List Node)
+  | .block b :: _ => some b
+  | _ => none
+
 /-- `Stack.run` -/
 def runNodes (child : Option ChildFn) (ctx : Ctx) : List Node → St → List Str → Res
   | [], st, out => .ok { st := st, out := out, sig := .normal }
   | .block _ :: rest, st, out => runNodes child ctx rest st out
   | .line l :: rest, st, out =>
-    let block := match rest with | .block b :: _ => some b | _ => none
-    match stepCmd child ctx l block st with
-    | .ok r =>
-      if r.sig == .normal then runNodes child ctx rest r.st (out ++ r.out)
-      else .ok { st := r.st, out := out ++ r.out, sig := r.sig }
-    | .err e => .err e
-    | .crash e => .crash e
-    | .oom w => .oom w
+    stepCmd child ctx l (nextBlock rest) st >>= fun r =>
+    if r.sig == .normal then runNodes child ctx rest r.st (out ++ r.out)
+    else .ok { st := r.st, out := out ++ r.out, sig := r.sig }
 
 /-- `d` = how many more stacks may be created above this one (`stack_limit − len(pile)`) -/
 def exec : Nat → ChildFn
